@@ -1,1 +1,303 @@
-/-! C30 — property theorems (stub: nothing proved yet). -/
+import B6.Lemmas.Dijkstra
+/-!
+# C30 — shortest-path search finds true shortest distances and routes
+
+Model: `B6/Model/Dijkstra.lean` (`ShortestPathSearch`: `AddOrUpdate`, `ExpandSearch`, `ExpandSearchTo`,
+`BuildRoute`, `container/heap`).  Specification: `B6/Spec/ShortestPath.lean` (walks of usable segments with
+left-folded cost; `RouteTo`).  Invariant and lemmas: `B6/Lemmas/Dijkstra.lean`.
+
+All theorems are for every graph (`Traverse` result) `g`, every weight structure with the `LawfulCost` laws,
+every limit `max`, every list of origins, and **every** run of the search in which each pop returns *some*
+queued minimum (`Reach`) — no bound on size or number of steps.  Hypotheses: `NonNeg g` (usable segments have
+non-negative weight) and, for routes, `FirstOk g` (`Traverse(p)` yields segments that start at `p`).
+
+* `settled_is_walk_cost`   every recorded distance is the cost of a walk from an origin
+* `route_sound`            `BuildRoute` returns such a walk: a chain of usable segments from an origin to the
+                           point, every step carrying the accumulated cost, the last one the recorded distance
+* `settled_nondecreasing`  points are settled in non-decreasing order of distance
+* `settled_final`          a settled entry is ≤ the cost of every walk, in every state of the search
+* `dijkstra_optimal`       when the queue is empty: every recorded distance is a walk cost and ≤ every walk
+                           cost (= the true shortest distance), and every point with a walk cheaper than `max`
+                           is recorded
+* `search_to_correct`, `search_to_route`, `early_stop_second_condition_dead`   `ExpandSearchTo`'s early stop
+* `runH_reach`, `search_reach`, `searchTo_reach`   the executable heap-driven model (`runH`, the one the driver
+                           runs) only produces runs of the abstract search
+-/
+set_option linter.unusedSectionVars false
+set_option linter.unusedVariables false
+namespace B6.Props.C30
+open B6.Model.Dijkstra B6.Spec.ShortestPath B6.Lemmas.Dijkstra
+
+variable {P S α : Type} [DecidableEq P] [Cost α] [LawfulCost α]
+variable {g : Graph P S α} {origins : List P} {max : α}
+
+/-- Route soundness, part 1: every recorded distance is the cost of an actual walk from an origin. -/
+theorem settled_is_walk_cost (hN : NonNeg g) {tr : List (P × α)} {t : Table P S α}
+    (h : Reach g max (initTable origins) tr t) {p : P} {e : Entry P S α} (hp : tget t p = some e) :
+    ∃ es, Walk g origins p e.dist es := by
+  rcases (h.inv hN (Inv.init g origins max)).core.walk p e hp with hw | ⟨hj, _⟩
+  · exact hw
+  · exact absurd hj id
+
+/-- Route soundness, part 2: what `BuildRoute(p)` returns for a recorded point is a chain of usable segments
+from an origin to `p`, each step ending at its `Destination` with the accumulated `Cost`; the cost of the whole
+route is the recorded distance. (`buildRoute … = some …`: the Go loop ended.) -/
+theorem route_sound (hN : NonNeg g) (hF : FirstOk g) {tr : List (P × α)} {t : Table P S α}
+    (h : Reach g max (initTable origins) tr t) {p : P} {e : Entry P S α} (hp : tget t p = some e)
+    {n : Nat} {o : P} {steps : List (Step P S α)} (hb : buildRoute t n p [] = some (o, steps)) :
+    RouteTo g origins o steps p e.dist := by
+  have hc := (h.inv hN (Inv.init g origins max)).core
+  obtain ⟨pre, hpre, hr⟩ := buildRoute_sound hN hF hc n p [] e o steps hp (fun hj => hj.1) hb
+  simp at hpre; subst hpre; exact hr
+
+/-- Points are popped (settled) in non-decreasing order of distance; `tr` is most-recent-first. -/
+theorem settled_nondecreasing (hN : NonNeg g) {tr : List (P × α)} {t : Table P S α}
+    (h : Reach g max (initTable origins) tr t) :
+    tr.Pairwise (fun later earlier => earlier.2 ≤ later.2) :=
+  h.nondecreasing hN (Inv.init g origins max)
+
+/-- In **every** state of the search a settled entry already holds the true shortest distance:
+it is the cost of a walk and no walk is cheaper. -/
+theorem settled_final (hN : NonNeg g) {tr : List (P × α)} {t : Table P S α}
+    (h : Reach g max (initTable origins) tr t) {p : P} {e : Entry P S α}
+    (hp : tget t p = some e) (hv : e.visited = true) :
+    (∃ es, Walk g origins p e.dist es) ∧ ∀ c es, Walk g origins p c es → e.dist ≤ c :=
+  ⟨settled_is_walk_cost hN h hp,
+   fun _ _ hw => settled_le_walk hN (h.inv hN (Inv.init g origins max)) hp hv (fun hj => hj.1) hw⟩
+
+/-- **Optimality.** When the queue is empty (every entry popped):
+(1) every recorded distance is the true shortest distance of its point — it is the cost of a walk from an
+origin and at most the cost of every walk to that point;
+(2) every point that has a walk of cost `< max` is recorded. -/
+theorem dijkstra_optimal (hN : NonNeg g) {tr : List (P × α)} {t : Table P S α}
+    (h : Reach g max (initTable origins) tr t) (hfin : allVisited t = true) :
+    (∀ p e, tget t p = some e →
+      (∃ es, Walk g origins p e.dist es) ∧ ∀ c es, Walk g origins p c es → e.dist ≤ c) ∧
+    (∀ p c es, Walk g origins p c es → c < max → ∃ e, tget t p = some e ∧ e.dist ≤ c) := by
+  have hI := h.inv hN (Inv.init g origins max)
+  refine ⟨fun p e hp => settled_final hN h hp (allVisited_sound hfin hp), ?_⟩
+  intro p c es hw hc
+  rcases walk_exit hN hI hw hc with hl | ⟨y, ey, hy, hyv, _⟩
+  · exact hl
+  · have := allVisited_sound hfin hy
+    rw [hyv] at this; cases this
+
+/-! ### `ExpandSearchTo` -/
+
+/-- `ExpandSearchTo(dest)` stops when it pops `dest`. At that moment (`IsMin t dest`, any earlier pops):
+if the recorded distance is below the limit it is the true shortest distance; otherwise (`+Inf` sentinel
+untouched) no walk to `dest` is cheaper than the limit. -/
+theorem search_to_correct (hN : NonNeg g) {inf : α} {dest : P} (hd : dest ∉ origins) (hinf : ¬ inf < max)
+    {tr : List (P × α)} {t : Table P S α}
+    (h : Reach g max (tput (initTable origins) dest { visited := false, dist := inf, back := none }) tr t)
+    {e : Entry P S α} (hp : tget t dest = some e) (hmin : IsMin t dest) :
+    (e.dist < max → (∃ es, Walk g origins dest e.dist es) ∧ ∀ c es, Walk g origins dest c es → e.dist ≤ c) ∧
+    (¬ e.dist < max → ∀ c es, Walk g origins dest c es → ¬ c < max) := by
+  have hI := h.inv hN (Inv.initTo g origins max inf dest hd hinf)
+  obtain ⟨e', hp', _, hm⟩ := hmin
+  rw [hp] at hp'; cases hp'
+  have key : ∀ c es, Walk g origins dest c es → c < max → e.dist ≤ c := by
+    intro c es hw hc
+    rcases walk_exit hN hI hw hc with ⟨e', he', hd'⟩ | ⟨y, ey, hy, hyv, hd'⟩
+    · rw [hp] at he'; cases he'; exact hd'
+    · exact le_trans' (le_of_not_lt (hm y ey hy hyv)) hd'
+  constructor
+  · intro hlt
+    constructor
+    · rcases hI.core.walk dest e hp with hw | ⟨_, _, hj⟩
+      · exact hw
+      · exact absurd hlt hj
+    · intro c es hw
+      by_cases hc : c < max
+      · exact key c es hw hc
+      · exact le_trans' (le_of_lt hlt) (le_of_not_lt hc)
+  · intro hnlt c es hw hc
+    exact hnlt (lt_of_le_of_lt (key c es hw hc) hc)
+
+/-- … and the route `BuildPath(dest)` / `BuildRoute(dest)` then returns is a chain of usable segments from the
+origin with accumulated costs (table after `dest` was marked visited). -/
+theorem search_to_route (hN : NonNeg g) (hF : FirstOk g) {inf : α} {dest : P} (hd : dest ∉ origins)
+    (hinf : ¬ inf < max) {tr : List (P × α)} {t t1 : Table P S α}
+    (h : Reach g max (tput (initTable origins) dest { visited := false, dist := inf, back := none }) tr t)
+    {e : Entry P S α} (hmin : IsMin t dest) (hmark : markVisited t dest = some (t1, e)) (hlt : e.dist < max)
+    {n : Nat} {o : P} {steps : List (Step P S α)} (hb : buildRoute t1 n dest [] = some (o, steps)) :
+    RouteTo g origins o steps dest e.dist := by
+  have hI := h.inv hN (Inv.initTo g origins max inf dest hd hinf)
+  obtain ⟨e', hp', hv, hm⟩ := hmin
+  unfold markVisited at hmark
+  rw [hp'] at hmark
+  simp at hmark
+  obtain ⟨ht1, he⟩ := hmark
+  subst he; subst ht1
+  have hc := (Mid.ofInv hI hp' hv hm).core
+  obtain ⟨pre, hpre, hr⟩ := buildRoute_sound hN hF hc n dest [] _ o steps (get_put_self _ _ _)
+    (fun hj => hj.2.2 hlt) hb
+  simp at hpre; subst hpre; exact hr
+
+/-- The second stop condition of `ExpandSearchTo` (`destination.distance < r.distance`) can never fire
+while `dest` is still queued: the popped entry is a minimum. -/
+theorem early_stop_second_condition_dead {t : Table P S α} {p dest : P} {r de : Entry P S α}
+    (hmin : IsMin t p) (hp : tget t p = some r) (hd : tget t dest = some de) (hdv : de.visited = false) :
+    ¬ de.dist < r.dist := by
+  obtain ⟨r', hp', _, hm⟩ := hmin
+  rw [hp] at hp'; cases hp'
+  exact hm dest de hd hdv
+
+/-! ### the executable heap-driven model only produces runs of the abstract search -/
+
+/-- If `runH` ends (`.done`) it went through states of the abstract search; it either ran until the queue was
+empty, or (`ExpandSearchTo` only) stopped right after marking a popped minimum visited. -/
+theorem runH_reach (g : Graph P S α) (max : α) (to : Option P) :
+    ∀ (fuel : Nat) (s s' : HState P S α), runH g max to fuel s = .done s' →
+      ∃ tr t, Reach g max s.t tr t ∧
+        ((s'.t = t ∧ s'.heap.size = 0) ∨
+         (∃ p r, to.isSome = true ∧ IsMin t p ∧ markVisited t p = some (s'.t, r))) := by
+  intro fuel
+  induction fuel with
+  | zero =>
+    intro s s' h
+    unfold runH at h
+    split at h
+    · rename_i hz
+      cases h
+      exact ⟨[], s.t, Reach.refl, Or.inl ⟨rfl, hz⟩⟩
+    · cases h
+  | succ n ih =>
+    intro s s' h
+    unfold runH at h
+    split at h
+    · rename_i hz
+      cases h
+      exact ⟨[], s.t, Reach.refl, Or.inl ⟨rfl, hz⟩⟩
+    · split at h
+      · cases h
+      · rename_i p h1 hpop
+        split at h
+        · cases h
+        · rename_i hminb
+          have hmin : IsMin s.t p := isMinB_sound (by simpa using hminb)
+          split at h
+          · cases h
+          · rename_i t1 r hmark
+            split at h
+            · rename_i hstop
+              cases h
+              refine ⟨[], s.t, Reach.refl, Or.inr ⟨p, r, ?_, hmin, hmark⟩⟩
+              cases to with
+              | none => simp [stopNow] at hstop
+              | some _ => rfl
+            · split at h
+              · cases h
+              · rename_i s'' hfold
+                obtain ⟨tr, t, hr, halt⟩ := ih s'' s' h
+                have ht := foldl_relaxH_table max r.dist (g.adj p) _ _ hfold
+                have hp : tget s.t p = some r := by
+                  unfold markVisited at hmark
+                  cases hq : tget s.t p with
+                  | none => simp [hq] at hmark
+                  | some r' => simp [hq] at hmark; rw [hmark.2]
+                have hexp : Model.Dijkstra.expand g max s.t p = some s''.t := by
+                  unfold Model.Dijkstra.expand
+                  rw [hmark]
+                  simp [ht]
+                exact ⟨tr ++ [(p, r.dist)], t, Reach.head hmin hp hexp hr, halt⟩
+
+/-- `search` (= `NewShortestPathSearchFromPoint` + `ExpandSearch` with the real heap): a finished run is a run of
+the abstract search with an empty queue, so `dijkstra_optimal` applies to its table whenever `allVisited`. -/
+theorem search_reach (g : Graph P S α) (max : α) (origins : List P) (fuel : Nat) (s' : HState P S α)
+    (h : search g max origins fuel = .done s') : ∃ tr, Reach g max (initTable origins) tr s'.t := by
+  obtain ⟨tr, t, hr, halt⟩ := runH_reach g max none fuel _ s' h
+  rcases halt with ⟨ht, _⟩ | ⟨_, _, hsome, _⟩
+  · exact ⟨tr, ht ▸ hr⟩
+  · simp at hsome
+
+/-- `searchTo`: a finished run either exhausted the queue or stopped right after popping a minimum. -/
+theorem searchTo_reach (g : Graph P S α) (max inf : α) (origins : List P) (dest : P) (fuel : Nat)
+    (s' : HState P S α) (h : searchTo g max inf origins dest fuel = some (.done s')) :
+    ∃ tr t, Reach g max (tput (initTable origins) dest { visited := false, dist := inf, back := none }) tr t ∧
+      ((s'.t = t ∧ s'.heap.size = 0) ∨ (∃ p r, IsMin t p ∧ markVisited t p = some (s'.t, r))) := by
+  unfold searchTo sentinelTable at h
+  split at h
+  · cases h
+  · split at h
+    · simp at h
+    · rename_i hh hpush
+      simp at h
+      obtain ⟨tr, t, hr, halt⟩ := runH_reach g max (some dest) fuel _ s' h
+      refine ⟨tr, t, hr, ?_⟩
+      rcases halt with hl | ⟨p, r, _, h1, h2⟩
+      · exact Or.inl hl
+      · exact Or.inr ⟨p, r, h1, h2⟩
+
+end B6.Props.C30
+
+/-! ### non-vacuity: the hypotheses are satisfiable and the model really runs -/
+namespace B6.Props.C30.Example
+open B6.Model.Dijkstra B6.Spec.ShortestPath B6.Lemmas.Dijkstra
+
+/-- 0 →3 1 →4 2, 0 →10 2 (improved by decrease-key to 7), 2 → 0 unusable, 1 →0 1 (zero-weight self loop) -/
+def exEdges : List (Edge Nat Nat Nat) := [
+  { seg := 1, first := 0, last := 1, usable := true, weight := 3 },
+  { seg := 2, first := 0, last := 2, usable := true, weight := 10 },
+  { seg := 3, first := 1, last := 2, usable := true, weight := 4 },
+  { seg := 5, first := 1, last := 1, usable := true, weight := 0 },
+  { seg := 4, first := 2, last := 0, usable := false, weight := 1 }]
+
+def exGraph : Graph Nat Nat Nat := ⟨fun p => exEdges.filter (fun e => e.first == p)⟩
+
+example : NonNeg exGraph := fun _ _ _ _ => Nat.zero_le _
+
+example : FirstOk exGraph := by
+  intro p e he
+  simp [exGraph] at he
+  exact he.2
+
+/-- replay a given pop order on the abstract model, checking that every pop is a queued minimum -/
+def runAbs (g : Graph Nat Nat Nat) (max : Nat) : List Nat → Table Nat Nat Nat → Option (Table Nat Nat Nat)
+  | [], t => some t
+  | p :: ps, t => if isMinB t p then (expand g max t p).bind (runAbs g max ps) else none
+
+theorem runAbs_reach (g : Graph Nat Nat Nat) (max : Nat) :
+    ∀ (ps : List Nat) (t0 t : Table Nat Nat Nat), runAbs g max ps t0 = some t →
+      ∃ tr, Reach g max t0 tr t ∧ tr.length = ps.length := by
+  intro ps
+  induction ps with
+  | nil => intro t0 t h; simp [runAbs] at h; subst h; exact ⟨[], Reach.refl, rfl⟩
+  | cons p ps ih =>
+    intro t0 t h
+    simp only [runAbs] at h
+    split at h
+    · rename_i hmin
+      cases hexp : expand g max t0 p with
+      | none => simp [hexp] at h
+      | some t1 =>
+        simp [hexp] at h
+        obtain ⟨tr, hr, hl⟩ := ih t1 t h
+        obtain ⟨ep, hp, _⟩ := isMinB_sound hmin
+        exact ⟨tr ++ [(p, ep.dist)], Reach.head (isMinB_sound hmin) hp hexp hr, by simp [hl]⟩
+    · cases h
+
+/-- A non-trivial run with an empty queue exists (pop order 0, 1, 2; point 2 is first recorded at 10 and then
+decreased to 7 through point 1): the hypotheses of `dijkstra_optimal`, `settled_is_walk_cost`,
+`settled_nondecreasing` and `route_sound` are jointly satisfiable, and the outcome is the expected one. -/
+example : ∃ tr t, Reach exGraph 20 (initTable [0]) tr t ∧ allVisited t = true ∧ tr.length = 3 ∧
+    (tget t 2).map (fun e => (e.dist, e.back.map (·.seg))) = some (7, some 3) ∧
+    ((buildRoute t 5 2 []).map fun (o, steps) => (o, steps.map fun st => (st.dest, st.via.seg, st.cost)))
+      = some (0, [(1, 1, 3), (2, 3, 7)]) := by
+  have h : ∃ t, runAbs exGraph 20 [0, 1, 2] (initTable [0]) = some t ∧ allVisited t = true ∧
+      (tget t 2).map (fun e => (e.dist, e.back.map (·.seg))) = some (7, some 3) ∧
+      ((buildRoute t 5 2 []).map fun (o, steps) => (o, steps.map fun st => (st.dest, st.via.seg, st.cost)))
+        = some (0, [(1, 1, 3), (2, 3, 7)]) := by
+    refine ⟨_, rfl, ?_, ?_, ?_⟩ <;> decide
+  obtain ⟨t, hrun, h1, h2, h3⟩ := h
+  obtain ⟨tr, hr, hl⟩ := runAbs_reach exGraph 20 _ _ t hrun
+  exact ⟨tr, t, hr, h1, by simpa using hl, h2, h3⟩
+
+/-- with limit 7 point 2 (true distance 7) is *not* recorded: the limit is strict -/
+example : (runAbs exGraph 7 [0, 1] (initTable [0])).map (fun t => (allVisited t, (tget t 2).isSome))
+    = some (true, false) := by decide
+
+/-- `ExpandSearchTo`'s hypotheses: destination 2 is not the origin, the sentinel is not below the limit -/
+example : (2 : Nat) ∉ [0] ∧ ¬ (21 : Nat) < 20 := by decide
+
+end B6.Props.C30.Example
